@@ -152,7 +152,10 @@ def run(rep, prog, tier):
                 a = call_args(n)
                 for cond, pol in gi.guards(n):
                     for x in walk(cond):
-                        if x.get("k") == "BinaryOperator" and x.get("op") == "!=" and pol:
+                        from ..e2 import _negations_above
+                        holds = (pol != _negations_above(cond, x)) if x.get("k") == "BinaryOperator" and x.get("op") in ("!=", "==") else None
+                        # 'ids differ' holds at the call: (a != b) true, or (a == b) false (e.g. 'if(a == b) continue;')
+                        if x.get("k") == "BinaryOperator" and ((x.get("op") == "!=" and holds) or (x.get("op") == "==" and holds is False)):
                             l, r = strip(x["c"][0]), strip(x["c"][1])
                             if l.get("callee") == "cell::get_id" and r.get("callee") == "cell::get_id":
                                 objs = {render(call_obj(l)), render(call_obj(r))}
@@ -228,18 +231,28 @@ def block_kind(fi, blk):
 def range_rule(rep, prog, fn, fi, node, store, what, want=None, exclude=None):
     ok = None
     seen = []
+    from ..model import def_chain
     for cond, pol in fi.guards(node):
-        if not pol:
-            continue
+        cond = strip(cond)
+        while cond.get("k") == "UnaryOperator" and cond.get("op") == "!":
+            pol = not pol
+            cond = strip(cond["c"][0])
+            while cond.get("k") == "ParenExpr" and cond.get("c"):
+                cond = strip(cond["c"][0])
         ops = {y.get("op") for y in walk(cond) if y.get("k") == "BinaryOperator" and y.get("op") in ("&&", "||")}
-        if not ops <= {"&&"}:
+        # the comparison must HOLD at the node: inside a conjunction that holds, or a single comparison whose negation failed
+        if pol and not ops <= {"&&"}:
+            continue
+        if not pol and ops:
             continue
         for x in walk(cond):
-            if x.get("k") == "BinaryOperator" and x.get("op") in ("<", "<="):
+            want_ops = ("<", "<=") if pol else (">=", ">")
+            if x.get("k") == "BinaryOperator" and x.get("op") in want_ops:
                 l, r = strip(x["c"][0]), strip(x["c"][1])
                 if r.get("k") == "MemberExpr" and "cutoff_square" in r["ref"].get("qn", ""):
                     seen.append(r["ref"]["name"])
-                    lhs_ok = l.get("k") == "DeclRefExpr" and ("squared_distance" in l["ref"]["name"])
+                    lhs_ok = l.get("k") == "DeclRefExpr" and ("squared_distance" in l["ref"]["name"] or any(
+                        y.get("k") == "CallExpr" and y.get("callee", "").endswith("compute_node_triangle_distance") for d_ in def_chain(fn, l, depth=4) for y in walk(d_)))
                     if lhs_ok and (want is None or want in r["ref"]["name"]) and not (exclude and exclude in r["ref"]["name"]):
                         ok = r["ref"]["name"]
     if ok:
